@@ -310,7 +310,18 @@ def run(eng: Engine, ck: Check):
                         (isinstance(e.elts[0], ast.BinOp) and isinstance(e.elts[0].op, ast.Add) and unparse(e.elts[0].left) == posp
                          and const(e.elts[0].right) == struct.calcsize(fmt))
                     val = pat.match(e.elts[1], pat.compile_pattern(f'$c.STRUCT.unpack_from({datap}, {posp})[0]')[0])
-                    ok = ok and adv_ok and val is not None and own_struct(val, name)
+                    val_ok = val is not None and own_struct(val, name)
+                    if not val_ok:
+                        # the same integer read without struct: int.from_bytes(data[pos:pos + size], 'little' [, signed=..]) decodes exactly what the
+                        # little-endian one-field formats decode (unsigned for B H I Q, signed=True for b h i q), given the slice has the struct's width
+                        v_ = e.elts[1]
+                        if isinstance(v_, ast.Call) and unparse(v_.func) == 'int.from_bytes' and len(v_.args) >= 2 and const(v_.args[1]) == 'little' and \
+                                isinstance(v_.args[0], ast.Subscript) and unparse(v_.args[0].value) == datap and isinstance(v_.args[0].slice, ast.Slice) and \
+                                v_.args[0].slice.step is None and v_.args[0].slice.lower is not None and unparse(v_.args[0].slice.lower) == posp and \
+                                v_.args[0].slice.upper is not None and unparse(v_.args[0].slice.upper) == unparse(e.elts[0]) and len(fmt) == 2 and fmt[0] == '<':
+                            signed = const(kw(v_, 'signed')) is True
+                            val_ok = (fmt[1] in 'BHIQ' and not signed) or (fmt[1] in 'bhiq' and signed)
+                    ok = ok and adv_ok and val_ok
                 why = 'does not return (pos + STRUCT.size, STRUCT.unpack_from(data, pos)[0]) for its own STRUCT'
             ck.ob('R-C01-PRIMSYM', m, m.node, f'{name}.{mn} uses the class STRUCT ({fmt}); the reader advances by its size', ok, why, construct=f'{name}.{mn} struct')
     ip = repo.cls('ipaddr', PRIM)
